@@ -1,7 +1,9 @@
 /* Harness TU that includes the REAL radsecproxy.c textually (reaching its
    statics) and adds driver entry points after it. */
+#define H_INTERPOSE_THREADS
 #include "interpose.h"
 #include "radsecproxy.c"
+#include "hworld.h"
 #include "fticks.h"
 #include "fticks_hashmac.h"
 #include "hcommon.h"
@@ -433,7 +435,343 @@ static int op_hashmac(int argc, char **argv, FILE *out) {
     return 1;
 }
 
+
+/* ====================================================================== world engine */
+extern void h_rewrite_reset(void);
+
+static struct protodefs fakepd[RAD_PROTOCOUNT];
+static int radput_ok = 1;
+#define MAXCL 64
+static struct client *wclients[MAXCL];
+static int nwclients;
+static int world_ready;
+
+static int fake_clientradput(struct server *s, unsigned char *rad, int radlen) {
+    h_event("send", s->conf->name, rad, radlen);
+    return radput_ok;
+}
+static void fake_setsrcres(void) {}
+
+static struct clsrvconf *conf_by_name(struct list *l, const char *name) {
+    struct list_node *e;
+    for (e = list_first(l); e; e = list_next(e))
+        if (!strcmp(((struct clsrvconf *)e->data)->name, name))
+            return e->data;
+    return NULL;
+}
+
+static void put_digest(FILE *out) {
+    struct list_node *e;
+    int i;
+    for (e = list_first(srvconfs); e; e = list_next(e)) {
+        struct clsrvconf *c = e->data;
+        struct server *s = c->servers;
+        if (!s) {
+            fprintf(out, " | S:%s:-", c->name);
+            continue;
+        }
+        fprintf(out, " | S:%s st=%d lost=%d next=%d ss=%d slots=", c->name, s->state, s->lostrqs, s->nextid, c->statusserver);
+        for (i = 0; i < MAX_REQUESTS; i++)
+            if (s->requests[i].rq || s->requests[i].tries)
+                fprintf(out, "%d:r%d:%d:%ld,", i, s->requests[i].rq ? h_rq_ordinal(s->requests[i].rq) : -1, s->requests[i].tries,
+                        s->requests[i].expiry.tv_sec ? (long)s->requests[i].expiry.tv_sec - 1000000 : 0L);
+    }
+    for (i = 0; i < nwclients; i++) {
+        struct client *c = wclients[i];
+        int j;
+        struct list_node *n;
+        if (!c) {
+            fprintf(out, " | C%d:gone", i);
+            continue;
+        }
+        fprintf(out, " | C%d cache=", i);
+        for (j = 0; j < MAX_REQUESTS; j++)
+            if (c->rqs[j])
+                fprintf(out, "%d:r%d:%d,", j, h_rq_ordinal(c->rqs[j]), c->rqs[j]->replybuf ? 1 : 0);
+        fprintf(out, " q=");
+        for (n = list_first(c->replyq->entries); n; n = list_next(n))
+            fprintf(out, "r%d,", h_rq_ordinal(n->data));
+    }
+    fprintf(out, " | R");
+    {
+        /* live request objects sorted by ordinal */
+        int n = h_rq_live(), k, maxo = -1;
+        for (k = 0; k < n; k++)
+            if (h_rq_live_ord(k) > maxo)
+                maxo = h_rq_live_ord(k);
+        for (i = 0; i <= maxo; i++)
+            for (k = 0; k < n; k++)
+                if (h_rq_live_ord(k) == i)
+                    fprintf(out, " r%d:%u", i, ((struct request *)h_rq_live_ptr(k))->refcount);
+    }
+    fprintf(out, " freed=%d t=%ld", h_rq_released(), (long)h_clock() - 1000000);
+}
+
+static void put_tail(FILE *out) {
+    char *ev = h_events_take(), *tr = h_transcript_take();
+    fputs(ev, out);
+    put_digest(out);
+    fprintf(out, " ##%s", tr);
+    free(ev);
+    free(tr);
+}
+
+/* cfg <path> [structured twin tokens for the Lean side, ignored here] */
+static int op_cfg(int argc, char **argv, FILE *out) {
+    int i;
+    struct list_node *e;
+    if (argc < 1)
+        return 0;
+    h_threads_reset();
+    h_rq_reset();
+    h_rewrite_reset();
+    nwclients = 0;
+    radput_ok = 1;
+    h_clock_set(1000000);
+    h_rand_seed(0x1234567 + strlen(argv[0]));
+    free(h_events_take());
+    free(h_transcript_take());
+    for (i = 0; i < RAD_PROTOCOUNT; i++) {
+        fakepd[i] = *protoinits[i](i);
+        fakepd[i].connecter = NULL;
+        fakepd[i].clientconnreader = NULL;
+        fakepd[i].clientradput = fake_clientradput;
+        fakepd[i].addclient = NULL;
+        fakepd[i].addserverextra = NULL;
+        fakepd[i].setsrcres = fake_setsrcres;
+        fakepd[i].initextra = NULL;
+        protodefs[i] = &fakepd[i];
+    }
+    getmainconfig(argv[0]);
+    for (e = list_first(srvconfs); e; e = list_next(e)) {
+        struct clsrvconf *c = e->data;
+        if (c->dynamiclookupcommand)
+            continue;
+        if (!addserver(c, NULL)) {
+            fputs("addserver-failed", out);
+            return 1;
+        }
+    }
+    world_ready = 1;
+    fputs("ok", out);
+    put_tail(out);
+    return 1;
+}
+
+/* client <clconf name> -> c<k> */
+static int op_client(int argc, char **argv, FILE *out) {
+    struct clsrvconf *c;
+    struct client *cl;
+    struct sockaddr_in *sa;
+    if (argc != 1 || !world_ready || nwclients >= MAXCL || !(c = conf_by_name(clconfs, argv[0])))
+        return 0;
+    cl = addclient(c, 1);
+    if (!cl)
+        return 0;
+    sa = calloc(1, sizeof(*sa));
+    sa->sin_family = AF_INET;
+    sa->sin_addr.s_addr = htonl(0x7f000001 + nwclients);
+    sa->sin_port = htons(10000 + nwclients);
+    cl->addr = (struct sockaddr *)sa;
+    wclients[nwclients] = cl;
+    fprintf(out, "c%d", nwclients++);
+    return 1;
+}
+
+static struct server *srv_by_name(const char *name) {
+    struct clsrvconf *c = conf_by_name(srvconfs, name);
+    return c ? c->servers : NULL;
+}
+
+/* rq <k> <hexpkt> -> ret=<r> [fwd:<srv>:<slot>:<hex>] events digest */
+static int op_rq(int argc, char **argv, FILE *out) {
+    struct request *rq;
+    int k, l, r, ord;
+    uint8_t *b;
+    struct list_node *e;
+    if (argc != 2 || !world_ready)
+        return 0;
+    k = atoi(argv[0]);
+    if (k < 0 || k >= nwclients || !wclients[k])
+        return 0;
+    b = hx(argv[1], &l);
+    if (l < 20)
+        return 0;
+    rq = newrequest();
+    ord = h_rq_ordinal(rq);
+    rq->buf = b;
+    rq->buflen = l;
+    rq->from = wclients[k];
+    r = radsrv(rq);
+    fprintf(out, "ret=%d", r);
+    for (e = list_first(srvconfs); e; e = list_next(e)) {
+        struct server *s = ((struct clsrvconf *)e->data)->servers;
+        int i;
+        if (!s)
+            continue;
+        for (i = 0; i < MAX_REQUESTS; i++)
+            if (s->requests[i].rq && h_rq_ordinal(s->requests[i].rq) == ord) {
+                fprintf(out, " fwd:%s:%d:", s->conf->name, i);
+                puthex(out, s->requests[i].rq->buf, s->requests[i].rq->buflen);
+            }
+    }
+    put_tail(out);
+    return 1;
+}
+
+/* reply <srvname> <hexpkt> -> ret=<r> events digest */
+static int op_reply(int argc, char **argv, FILE *out) {
+    struct server *s;
+    int l, r;
+    uint8_t *b;
+    if (argc != 2 || !world_ready || !(s = srv_by_name(argv[0])))
+        return 0;
+    b = hx(argv[1], &l);
+    if (l < 20)
+        return 0;
+    r = replyh(s, b, l);
+    fprintf(out, "ret=%d", r);
+    put_tail(out);
+    return 1;
+}
+
+/* writer <srvname> -> one scheduling of the real clientwr thread until it parks again */
+static int op_writer(int argc, char **argv, FILE *out) {
+    struct server *s;
+    void *t;
+    int st;
+    if (argc != 1 || !world_ready || !(s = srv_by_name(argv[0])) || !(t = h_thread_find(s)))
+        return 0;
+    st = h_thread_step(t);
+    fprintf(out, "wst=%d wait=%ld", st, st == 1 ? h_thread_timeout(t) - (long)h_clock() : -1L);
+    put_tail(out);
+    return 1;
+}
+
+static int op_tick(int argc, char **argv, FILE *out) {
+    if (argc != 1)
+        return 0;
+    h_clock_set(h_clock() + atol(argv[0]));
+    fprintf(out, "t=%ld", (long)h_clock() - 1000000);
+    return 1;
+}
+
+/* reset <srvname>: what a connecter does when the connection is re-established */
+static int op_reset(int argc, char **argv, FILE *out) {
+    struct server *s;
+    if (argc != 1 || !world_ready || !(s = srv_by_name(argv[0])))
+        return 0;
+    pthread_mutex_lock(&s->lock);
+    s->state = RSP_SERVER_STATE_CONNECTED;
+    s->lostrqs = 0;
+    pthread_mutex_unlock(&s->lock);
+    pthread_mutex_lock(&s->newrq_mutex);
+    s->conreset = 1;
+    pthread_cond_signal(&s->newrq_cond);
+    pthread_mutex_unlock(&s->newrq_mutex);
+    fputs("ok", out);
+    put_tail(out);
+    return 1;
+}
+
+/* srvstate <srvname> <state> <lost>: set by the (absent) transport threads */
+static int op_srvstate(int argc, char **argv, FILE *out) {
+    struct server *s;
+    if (argc != 3 || !world_ready || !(s = srv_by_name(argv[0])))
+        return 0;
+    pthread_mutex_lock(&s->lock);
+    s->state = atoi(argv[1]);
+    s->lostrqs = atoi(argv[2]);
+    pthread_mutex_unlock(&s->lock);
+    fputs("ok", out);
+    put_tail(out);
+    return 1;
+}
+
+/* pop <k>: what the server writer thread does with the client's reply queue */
+static int op_pop(int argc, char **argv, FILE *out) {
+    struct client *c;
+    struct request *r;
+    int k;
+    if (argc != 1 || !world_ready)
+        return 0;
+    k = atoi(argv[0]);
+    if (k < 0 || k >= nwclients || !(c = wclients[k]))
+        return 0;
+    fputs("pop", out);
+    for (;;) {
+        pthread_mutex_lock(&c->replyq->mutex);
+        r = list_shift(c->replyq->entries);
+        pthread_mutex_unlock(&c->replyq->mutex);
+        if (!r)
+            break;
+        fputs(" out:", out);
+        puthex(out, r->replybuf, r->replybuflen);
+        freerq(r);
+    }
+    put_tail(out);
+    return 1;
+}
+
+static int op_rmclient(int argc, char **argv, FILE *out) {
+    int k;
+    if (argc != 1 || !world_ready)
+        return 0;
+    k = atoi(argv[0]);
+    if (k < 0 || k >= nwclients || !wclients[k])
+        return 0;
+    removeclient(wclients[k]);
+    wclients[k] = NULL;
+    fputs("ok", out);
+    put_tail(out);
+    return 1;
+}
+
+static int op_radput(int argc, char **argv, FILE *out) {
+    if (argc != 1)
+        return 0;
+    radput_ok = atoi(argv[0]);
+    fputs("ok", out);
+    return 1;
+}
+
+/* rewrite <block name> <attr tokens> -> rv attrs ## transcript   (needs a cfg first) */
+static int op_rewrite(int argc, char **argv, FILE *out) {
+    struct rewrite *rw;
+    struct radmsg *m;
+    uint8_t auth[16] = {0};
+    int rv;
+    char *tr;
+    if (argc < 1 || !world_ready)
+        return 0;
+    rw = getrewrite(argv[0], NULL);
+    m = radmsg_init(1, 1, auth);
+    if (!add_attr_tokens(m, argc - 1, argv + 1))
+        return 0;
+    free(h_transcript_take());
+    rv = dorewrite(m, rw);
+    fprintf(out, "rv=%d ", rv);
+    put_msg(out, m);
+    tr = h_transcript_take();
+    fprintf(out, " ##%s", tr);
+    free(tr);
+    radmsg_free(m);
+    return 1;
+}
+
 int h_rsp_op(const char *op, int argc, char **argv, FILE *out) {
+    if (!strcmp(op, "cfg")) return op_cfg(argc, argv, out);
+    if (!strcmp(op, "client")) return op_client(argc, argv, out);
+    if (!strcmp(op, "rq")) return op_rq(argc, argv, out);
+    if (!strcmp(op, "reply")) return op_reply(argc, argv, out);
+    if (!strcmp(op, "writer")) return op_writer(argc, argv, out);
+    if (!strcmp(op, "tick")) return op_tick(argc, argv, out);
+    if (!strcmp(op, "reset")) return op_reset(argc, argv, out);
+    if (!strcmp(op, "srvstate")) return op_srvstate(argc, argv, out);
+    if (!strcmp(op, "pop")) return op_pop(argc, argv, out);
+    if (!strcmp(op, "rmclient")) return op_rmclient(argc, argv, out);
+    if (!strcmp(op, "radput")) return op_radput(argc, argv, out);
+    if (!strcmp(op, "rewrite")) return op_rewrite(argc, argv, out);
     if (!strcmp(op, "parse")) return op_parse(argc, argv, out);
     if (!strcmp(op, "serialize")) return op_serialize(argc, argv, out);
     if (!strcmp(op, "replylog")) return op_replylog(argc, argv, out);
